@@ -49,6 +49,17 @@ G = {
     pkg/parse): at least the Go oracle (split = joined) and, if time allows, the model.
 """),
  'C12': dict(cmd='c12', hours=4, goals="""
+ (Round 3 already did goal 1 — table / union / json_map_key / cross-application kinds; see notes/C12.md "Deepen round 3".
+ This is the second pass: start with 0, then goals 2 and 3.)
+ 0. (FIRST) PARAMETERS OF DECLARED TYPES AND THE CLI FORMAT MATRIX. (a) Non-body parameters — path (`/orders/{id <: OrderId}`),
+    query (`?status={Status}` / `?status=Status`), header (`(trace <: TraceToken [~header])`) — whose type is a DECLARED type
+    (alias, enum, tuple, table) rather than a primitive: the exported parameter must carry a schema that refers to that type
+    (`$ref`), never the empty schema; add them to the export model (`C12_export_complete_params` over reference-typed
+    parameters), the generator and the oracle, for both formats. (b) `sysl export` itself (cmd/sysl/cmd_export.go): the
+    matrix `-f openapi3|openapi2|swagger` x output name `x.json|x.yaml|x.yml|no extension` x `--mode`/other flags through the
+    REAL BINARY: the bytes written must be in the format the output name / flags ask for (a `.json` file parses as JSON,
+    a `.yaml` file as YAML), decode to the same document as the library call, and one file per application where the
+    command says so; make which struct field cmd_export.go hands to SerializeOutput in each branch a Gen fact.
  1. TYPE KINDS. notes/C12.md lists as not covered: `!table`, `!union`, nested / in-place type names, cross-application
     references (`App.Type`), json_map_key maps. Add them to the abstract model, the OpenAPI 3 export model and the Swagger
     type-output model (transliterating what pkg/exporter and pkg/syslwrapper really do for them), to the generator, and to
@@ -154,6 +165,15 @@ G = {
  belong to the C06 sub-task, which may be working at the same time — do not edit them, and keep every definition they import
  from your files (check with `grep -n "Require" coq/theories/Imports/Fault*.v`) backward compatible. translate/importrules.go
  is yours; translate/guards.go is shared (C01/C06): add a new translator file for new tables.
+ 0. (FIRST) TWO INPUT FAMILIES THE GENERATOR LACKS. (a) HISTORIES ON ONE Parser VALUE: `parse.Parser` is reused (Set, Parse, Set,
+    Parse ...): sequences such as Set(MaxImportDepth n > 0); Parse; Set(Settings{}) or a Set that omits the depth; Parse —
+    every Parse must behave like a fresh parser with the settings of the latest Set (model `Set` as replace, Gen fact from
+    its body; theorem `parse_depends_on_latest_settings`). (b) SAME IMPORT TEXT, DIFFERENT MEANING: two files of one closure
+    in DIFFERENT directories (or one local, one remote at a version) containing byte-identical relative import lines
+    (`import common`), which resolve to different files; with BOTH completion orders forced by the gate reader. Anything
+    the collector remembers per compile must be keyed by what the import MEANS (importing directory / repository / version
+    + text), never by the text alone: the model's claim key is the resolved index; oracle: both targets are in the result
+    under every order.
  1. NAMES. `Index.v` models fileNameToIndex / cleanImportFilename on strings; the listener's construction of the imported
     file's NAME (pkg/parse/listener_impl.go EnterImport_stmt: relative to the importing file's directory, rooted `/x`, remote
     `//host/org/repo/path@version`, relative imports INSIDE a remote file resolved with path.Join against its base, the
@@ -230,6 +250,15 @@ G = {
     behind them (e.g. array-of-array annotation values re-declared, annotations on re-opened REST methods).
 """),
  'C09': dict(cmd='c09', hours=4, goals="""
+ 0. (FIRST) THE CLI's OWN ENCODING PATHS. The harness encodes through pkg/pbutil; `sysl pb` (cmd/sysl/cmd_protobuf.go) has code
+    of its own between the model and the encoder: `--mode json|textpb|pb` x `--compact` (which runs removeSourceContext /
+    removeSourceContextImpl over the model by reflection before encoding) x `--split-apps` x `-o` file vs stdout. Drive every
+    combination through the real binary AND through the functions cmd_protobuf.go calls, decode the bytes, and compare with
+    the compiled model "apart from source locations" — exactly that: every field that is not a source context must survive
+    (e.g. Endpoint.Source of a pubsub subscriber `Pub -> Evt:`, whose Go name merely starts with "Source"). Generator: models
+    using every message field of sysl.proto at least once (subscriptions, mixins, views with expressions, every type kind,
+    attributes of every value kind). Model the location stripper as a function on the projected model (which fields it
+    clears — regenerate the field-name test from the source as a Gen fact) and prove `strip_only_locations`.
  1. notes/C09.md "Not covered": `--split-apps`, stdin `.pb` input, merging a compiled model WITH further Sysl sources,
     `SYSL_DEV_RENEST_FLATTENED_TYPES`. Add: (a) re-import of a compiled model together with extra `.sysl` sources that
     re-open its applications (what must hold: the result equals compiling all sources together, up to the listed
